@@ -170,14 +170,14 @@ def _poly(case, ctx, g):
             got = q(lambda x: x**k, dist).reshape(-1)
             ref = torch.tensor([_moment(k, a, c)[0] for a, c in zip(mf, vf)])
             sc = torch.tensor([_moment(k, a, c)[1] for a, c in zip(mf, vf)])
-            err = ((got - ref).abs() / (sc * 1e-10 + 1e-300)).max()
-            ctx.expect("poly_exact", bool(err <= 1), f"degree {k} < 2*{nl}: max |got-ref|/(1e-10*scale) = {float(err):.3g} ({case['dist']}, pass {rep})", degree=k, num_locs=nl, err=float(err))
+            err = ((got - ref).abs() / (sc * 5e-10 + 1e-300)).max()
+            ctx.expect("poly_exact", bool(err <= 1), f"degree {k} < 2*{nl}: max |got-ref|/(5e-10*scale) = {float(err):.3g} ({case['dist']}, pass {rep})", degree=k, num_locs=nl, err=float(err))
     # a random polynomial of degree 2n-1
     coef = torch.randn(2 * nl, generator=g)
     got = q(lambda x: sum(c * x**i for i, c in enumerate(coef)), dist).reshape(-1)
     ref = torch.tensor([sum(float(c) * _moment(i, a, cc)[0] for i, c in enumerate(coef)) for a, cc in zip(mf, vf)])
     sc = torch.tensor([sum(abs(float(c)) * _moment(i, a, cc)[1] for i, c in enumerate(coef)) for a, cc in zip(mf, vf)])
-    ctx.expect("poly_exact", bool(((got - ref).abs() <= sc * 1e-10 + 1e-300).all()), f"random polynomial of degree {2*nl-1}", degree=2 * nl - 1, num_locs=nl)
+    ctx.expect("poly_exact", bool(((got - ref).abs() <= sc * 5e-10 + 1e-300).all()), f"random polynomial of degree {2*nl-1}", degree=2 * nl - 1, num_locs=nl)
     # dtype / device conversions of the rule object keep the rule (n nodes, same exactness), also outside the settings block
     import copy
 
@@ -190,7 +190,7 @@ def _poly(case, ctx, g):
             got = qc(lambda x: x**kk, dist).reshape(-1)
             ref = torch.tensor([_moment(kk, a, c)[0] for a, c in zip(mf, vf)])
             sc = torch.tensor([_moment(kk, a, c)[1] for a, c in zip(mf, vf)])
-            ctx.expect("conversion_keeps_rule", bool(((got - ref).abs() <= sc * 1e-10 + 1e-300).all()), f"{conv}: degree {kk} no longer exact after conversion", conv=conv, num_locs=nl)
+            ctx.expect("conversion_keeps_rule", bool(((got - ref).abs() <= sc * 5e-10 + 1e-300).all()), f"{conv}: degree {kk} no longer exact after conversion", conv=conv, num_locs=nl)
     # single precision inputs (float32 mean / variance, small variances): central moments to float32 accuracy
     m32 = m.float()
     v32 = (v.float() * 0 + 10.0 ** (-6 + 3 * torch.rand(v.shape, generator=g, dtype=torch.float64))).float()
